@@ -7,7 +7,7 @@ from .. import client_h as C
 from ..runner import Suite
 
 MANIFEST = dict(
-    text='Lean 4 theorems about a timed model of send_message/_await_response (Await.run: well-founded recursion, arbitrary poll period, both tie orders, histories of any length): a return is the payload of the first response bearing the sent id, foreign/same-id-request/batch messages never complete the call, timeout iff no matching response, one request written; consecutive requests on ONE connection (connSeq: what earlier requests left in the stream is searched, never returned unless it bears the id; segments disjoint) and the high-level MCPClient on top (clientSeq: lazy initialize on the same connection, result = first unconsumed response bearing the call's own request id, request written iff initialized, initialized stays). The hand-written model is tied to the code by a correspondence run of the real send_message under a virtual-time event loop.',
+    text='Lean 4 theorems about a timed model of send_message/_await_response (Await.run: well-founded recursion, arbitrary poll period, both tie orders, histories of any length): a return is the payload of the first response bearing the sent id, foreign/same-id-request/batch messages never complete the call, timeout iff no matching response, one request written; consecutive requests on ONE connection (connSeq: what earlier requests left in the stream is searched, never returned unless it bears the id; segments disjoint) and the high-level MCPClient on top (clientSeq: lazy initialize on the same connection, result = first unconsumed response bearing the id of the request the call itself wrote, request written iff initialized, initialized stays). The hand-written model is tied to the code by a correspondence run of the real send_message under a virtual-time event loop.',
     note='Trusted: Lean kernel (axioms propext, Classical.choice, Quot.sound only), the correspondence harness and virtual-time loop; anyio/asyncio semantics are sampled, not proved. result:null responses are outside the quantifier.',
     technique='Lean 4 proof (fun_induction over a timed state-machine model) + differential correspondence run under virtual time',
     design='5/C01',
